@@ -10,7 +10,7 @@ open CogentModel.NJ (Mat get tab)
 inductive U where
   | tip (name : Nat)
   | node (c1 : U) (l1 : Rat) (c2 : U) (l2 : Rat)
-  deriving Repr, Inhabited
+  deriving Repr, Inhabited, DecidableEq
 
 /-- an entry of `node_order`: the node, whether it has children, and `children[0].TipLength`
 (the height at which the node was formed; never read for a tip) -/
@@ -57,13 +57,20 @@ structure State where
   tree : Option Entry
   deriving Repr
 
+/-- the pair chosen in one pass: `find_smallest_index`, and if it lies on the diagonal the diagonal is
+reset to `large_number` and the search repeated; returns the (possibly reset) matrix and the pair -/
+def select (n : Nat) (big : Rat) (m : Mat) : Mat × (Nat × Nat) :=
+  let s0 := findSmallest m n
+  if s0.1 = s0.2 then (resetDiag m n big, findSmallest (resetDiag m n big) n) else (m, s0)
+
+/-- `condense_node_order` then `condense_matrix` for the chosen pair -/
+def stepWith (n : Nat) (big : Rat) (order : List (Option Entry)) (m1 : Mat) (s : Nat × Nat) : State :=
+  { m := condenseMatrix m1 n s.1 s.2 big, order := condenseNodes m1 s.1 s.2 order,
+    tree := (condenseNodes m1 s.1 s.2 order).getD s.1 none }
+
 /-- one pass of the `for i in range(num_entries - 1)` loop of `UPGMA_cluster` -/
 def step (n : Nat) (big : Rat) (st : State) : State :=
-  let s0 := findSmallest st.m n
-  let m1 := if s0.1 = s0.2 then resetDiag st.m n big else st.m
-  let s := if s0.1 = s0.2 then findSmallest m1 n else s0
-  let order := condenseNodes m1 s.1 s.2 st.order
-  { m := condenseMatrix m1 n s.1 s.2 big, order := order, tree := order.getD s.1 none }
+  stepWith n big st.order (select n big st.m).1 (select n big st.m).2
 
 def iter (n : Nat) (big : Rat) : Nat → State → State
   | 0, st => st
